@@ -558,12 +558,24 @@ struct FieldT : Field {
   const char* how() override { return Io<T>::how(); }
 };
 
+template <class T>
+struct IsPodArr : std::false_type {};
+template <class T>
+struct IsPodArr<galois::PODResizeableArray<T>> : std::true_type {};
 // written as one container type, read as another with the same wire format (count + elements)
 template <class From, class To>
 struct CrossField : Field {
   From v{};
   std::unique_ptr<To> w;
-  void gen(Ctx& c) override { Tr<From>::make(c, v); }
+  void gen(Ctx& c) override {
+    Tr<From>::make(c, v);
+    if constexpr (IsPodArr<To>::value && !IsPodArr<From>::value)
+      if (v.empty() && !c.allowEmptyPod) { // empty arrays have a component of their own
+        typename From::value_type x{};
+        Tr<typename From::value_type>::make(c, x);
+        v.push_back(x);
+      }
+  }
   void ser(gr::SerializeBuffer& b) override { Io<From>::ser(b, v); }
   size_t sized() override { return Io<From>::sized(v); }
   void freshTarget(Ctx* dirty) override {
